@@ -735,6 +735,14 @@ expr_stmt:
 	{
 		target := $1
 		setCtx(yylex, target, ast.Store)
+		switch target.(type) {
+		case *ast.Name, *ast.Attribute, *ast.Subscript:
+		default:
+			// tuples, lists and starred expressions can be assigned to but not augmented
+			if !yylex.(*yyLex).error {
+				yylex.(*yyLex).SyntaxError("illegal expression for augmented assignment")
+			}
+		}
 		$$ = &ast.AugAssign{StmtBase: ast.StmtBase{Pos: $<pos>$}, Target: target, Op: $2, Value: $3}
 	}
 |	testlist_star_expr equals_yield_expr_or_testlist_star_expr
